@@ -28,9 +28,9 @@ def run(ctx):
             ctx.stream(f"large-s{s}", "c03", "Driver/C03.lean", n=12000, seed=ctx.seed * 1000 + 11 + s,
                        args=["-keys", "4096", "-cache", ["0", "100000", "64"][s]], timeout=3000, drv_timeout=3000)
     else:
-        ctx.stream("small-c0", "c03", "Driver/C03.lean", n=2500, args=["-keys", "8", "-cache", "0"])
-        ctx.stream("small-c3", "c03", "Driver/C03.lean", n=1200, seed=ctx.seed * 1000 + 3, args=["-keys", "8", "-cache", "3", "-keep", "9"])
-        ctx.stream("large", "c03", "Driver/C03.lean", n=900, seed=ctx.seed * 1000 + 11, args=["-keys", "4096", "-cache", "100000"])
+        ctx.stream("small-c0", "c03", "Driver/C03.lean", n=2000, args=["-keys", "8", "-cache", "0"])
+        ctx.stream("small-c3", "c03", "Driver/C03.lean", n=1000, seed=ctx.seed * 1000 + 3, args=["-keys", "8", "-cache", "3", "-keep", "9"])
+        ctx.stream("large", "c03", "Driver/C03.lean", n=700, seed=ctx.seed * 1000 + 11, args=["-keys", "4096", "-cache", "100000"])
 
 
 def search(ctx):
